@@ -95,6 +95,28 @@ def randoms(rng, count):
         if m <= 300:
             ops += ["sellers"]
         out += ed_ops(t, p, ops)
+    # lane-structured patterns: whole 64-symbol lanes (blocks) made of a symbol that does not occur in the text keep their delta words
+    # all-ones, so a carry produced in a lower lane has to ripple through one, two or more full lanes (the classical stress of multi-word
+    # adders: bpm_256's lane adder, bpm_block's carries between blocks); lane 0 is cut from the text so that it does produce carries
+    for _ in range(max(12, count // 6)):
+        nl = rng.choice([2, 3, 4, 4, 4, 5, 8, 16])
+        m = 64 * nl - rng.choice([0, 0, 1, 7, 33, 63])
+        n = m + rng.randint(0, 300)
+        t = [rng.randrange(12) for _ in range(n)]
+        p = []
+        absent = set(k for k in range(1, nl) if rng.random() < 0.6)
+        for k in range(nl):
+            if k in absent:
+                p += [12] * 64
+            else:
+                a = rng.randint(0, max(0, n - 64))
+                p += mutate(rng, t[a:a + 64], 12, rng.choice([0.0, 0.05]), 0.0)[:64]
+                p += [rng.randrange(12) for _ in range(64 * (k + 1) - len(p))]
+        p = p[:m]
+        ops = ["bpm_block", "bpm_block_dp", "dp_bpm_block"]
+        if m <= 256:
+            ops += ["bpm_256", "dyn_256", "sellers"]
+        out += ed_ops(t, p, ops)
     # pattern longer than the text, empty text, symbols that index the tables out of bounds
     for _ in range(20):
         m = rng.randint(1, 200)
